@@ -138,5 +138,8 @@ func TestPropConcurrentSelect(t *testing.T) {
 		}
 		ev.NonTrivial(fmt.Sprintf("concsel:%d:%d:%d", nsess, rounds, len(body)))
 		ev.Class(fmt.Sprintf("concurrent-select:sessions=%d", nsess))
+		if n := len(wd.hist); n > 0 {
+			ev.Sample(strings.Join(wd.hist[max(0, n-6):], "; "))
+		}
 	})
 }
